@@ -278,8 +278,13 @@ func runRaceChild(op string) string {
 			node := env.Cluster.Node(ip)
 			k++
 			switch x := rr.Intn(10); {
-			case x < 3 && fams["loss"]:
+			case x < 2 && fams["loss"]:
 				node.DropConns(nil)
+			case x < 4 && fams["loss"]:
+				// the control connection alone (wherever it is): the cluster goroutine reconnects while clients are being served
+				for _, nip := range env.IPs {
+					env.Cluster.Node(nip).DropConns(func(c interface{ Registered() bool }) bool { return c.Registered() })
+				}
 			case x < 5 && fams["topo"]:
 				if ip != env.IPs[0] {
 					env.Cluster.Delist(ip)
